@@ -2421,8 +2421,12 @@ class Statements(Sequence, Immutable):
         else:
             keep = set()
         candidates -= keep
-        # Other dependencies after removed_ind
-        additional = {down for up, down in graph.edges if up > removed_ind and down in candidates}
+        # Dependencies of other statements that are not themselves candidates
+        additional = {
+            down
+            for up, down in graph.edges
+            if up != removed_ind and up not in candidates and down in candidates
+        }
         for add in additional.copy():
             additional |= set(nx.dfs_preorder_nodes(graph, add))
         remove = candidates - additional
